@@ -826,3 +826,28 @@ Proof.
   - intros k' NE. apply flookup_fset_other; auto.
   - intros id' NE. apply alookup_aset_other; auto.
 Qed.
+
+(* ---------- derived value expressions ---------- *)
+Lemma alookup_above_max {A} (l : list (nat * A)) k :
+  fold_right (fun p m => Nat.max (fst p) m) 0 l < k -> alookup k l = None.
+Proof.
+  induction l as [|[k' a] r IH]; simpl; auto. intros H.
+  destruct (Nat.eqb k k') eqn:E.
+  - apply Nat.eqb_eq in E. subst. lia.
+  - apply IH. lia.
+Qed.
+
+Theorem resolve_failure_is_error st e :
+  eval_vexpr st e = None -> value_ok st (resolve st e) = false.
+Proof.
+  intros H. unfold resolve. rewrite H. simpl.
+  rewrite (alookup_above_max (st_store st) (S (max_id st))); [reflexivity | unfold max_id; lia].
+Qed.
+
+Theorem resolve_concat_is_plain_array st j f l v :
+  eval_vexpr st (EConcatEmpty j f l) = Some v -> v = VArr l.
+Proof.
+  simpl. destruct (alookup j (st_store st)) as [i|]; try discriminate.
+  destruct (flookup (KSym f) (i_fields i)) as [x|]; try discriminate.
+  destruct x; try discriminate. intros H; inversion H; auto.
+Qed.
